@@ -1,5 +1,6 @@
 import Proofs.Lemmas.AliasStore
 import Proofs.Lemmas.AliasPref
+import Proofs.Lemmas.AliasClass
 /-
 C18 — An alias is indistinguishable from the variable it names.
 
@@ -463,6 +464,168 @@ theorem rename_total_after_check {δ : Type} {le : α → α → Bool} (ho : Lin
   · obtain ⟨f, hf, _, _⟩ := rename_prefers ho hwf hc hne hchk cols
     simp [hf]
 
+
+/-! ## 5. Export with options (`status=`, `iterations=`, `include_internal=`) -/
+
+/-- The export is `rename` with a label map fixed by the instance: the frame (hence the options that shaped
+    it) has no say in *how* labels change or in *whether* the export raises. -/
+theorem export_is_rename {δ : Type} (le : α → α → Bool) (a : AMap α) (pref : List α) (cols : List (α × δ)) :
+    exportCols le a pref cols = (renamer le a pref).map fun f => renameDf f cols :=
+  exportCols_eq_renamer le a pref cols
+
+/-- **Names only, whatever the options.**  For every combination of `status` / `iterations` /
+    `include_internal`: the aliased export has exactly the data columns of the plain export *with the same
+    options* — the selected variables in order, then the status column iff requested, then the iterations column
+    iff requested; nothing changed, dropped or duplicated — and a label that changes becomes an alias of the old
+    label. -/
+theorem rename_only_opts {δ : Type} (le : α → α → Bool) (a : AMap α) (pref : List α) (internal : α → Bool)
+    (o : ExportOpts) (vars : List (α × δ)) (st it : α × δ) (out : List (α × δ))
+    (h : exportOpts le a pref internal o vars st it = some out) :
+    out.map Prod.snd = (baseFrame internal o vars st it).map Prod.snd ∧
+    out.map Prod.snd = (selectVars internal o vars).map Prod.snd ++ (if o.status then [st.2] else []) ++
+      (if o.iterations then [it.2] else []) ∧
+    out.length = (selectVars internal o vars).length + o.status.toNat + o.iterations.toNat ∧
+    ∀ i (hi : i < out.length) (hi' : i < (baseFrame internal o vars st it).length),
+      out[i].1 = (baseFrame internal o vars st it)[i].1 ∨ (out[i].1, (baseFrame internal o vars st it)[i].1) ∈ a := by
+  obtain ⟨h1, h2, h3⟩ := rename_only le a pref _ out h
+  refine ⟨h1, ?_, ?_, h3⟩
+  · rw [h1]
+    obtain ⟨s, i, n⟩ := o
+    cases s <;> cases i <;> simp [baseFrame, optCol]
+  · rw [h2]
+    obtain ⟨s, i, n⟩ := o
+    cases s <;> cases i <;> simp [baseFrame, optCol, Bool.toNat]
+
+/-- **Renaming commutes with the option-driven column selection**: exporting the selected columns is the same
+    as exporting everything (each column tagged with its plain label) and then selecting by the plain label —
+    so no option can make the aliased export differ from the plain one by more than the labels. -/
+theorem rename_commutes_with_selection {δ : Type} (le : α → α → Bool) (a : AMap α) (pref : List α)
+    (keep : α → Bool) (cols : List (α × δ)) :
+    exportCols le a pref (cols.filter fun c => keep c.1) =
+      (exportCols le a pref (cols.map fun c => (c.1, c))).map fun out =>
+        (out.filter fun c => keep c.2.1).map fun c => (c.1, c.2.2) := by
+  rw [export_is_rename, export_is_rename, Option.map_map]
+  cases renamer le a pref with
+  | none => rfl
+  | some f => simp [renameDf_filter_tagged f keep cols]
+
+/-- … and with appending the solution columns: the export of `vars ++ extra` is the export of `vars` followed
+    by the export of `extra` (same label map). -/
+theorem rename_commutes_with_append {δ : Type} (le : α → α → Bool) (a : AMap α) (pref : List α)
+    (cols extra : List (α × δ)) :
+    exportCols le a pref (cols ++ extra) =
+      (renamer le a pref).map fun f => renameDf f cols ++ renameDf f extra := by
+  rw [export_is_rename]
+  cases renamer le a pref with
+  | none => rfl
+  | some f => simp [renameDf_append]
+
+/-- Whether the export raises does not depend on the options (nor on the frame at all). -/
+theorem export_opts_raise_alike {δ : Type} (le : α → α → Bool) (a : AMap α) (pref : List α) (internal : α → Bool)
+    (o o' : ExportOpts) (vars : List (α × δ)) (st it : α × δ) :
+    (exportOpts le a pref internal o vars st it).isSome = (exportOpts le a pref internal o' vars st it).isSome := by
+  unfold exportOpts
+  rw [export_is_rename, export_is_rename]
+  cases renamer le a pref <;> rfl
+
+/-- A label that is no alias target of the instance map (e.g. `status`, `iterations`, an internal variable
+    nobody aliased) keeps its name under every option. -/
+theorem unaliased_label_kept {δ : Type} (le : α → α → Bool) (a : AMap α) (pref : List α) (cols out : List (α × δ))
+    (h : exportCols le a pref cols = some out) (i : Nat) (hi : i < out.length) (hi' : i < cols.length)
+    (hv : cols[i].1 ∉ vals a) : out[i].1 = cols[i].1 := by
+  rcases (rename_only le a pref cols out h).2.2 i hi hi' with h1 | h1
+  · exact h1
+  · exact absurd (mem_vals_of_mem h1) hv
+
+/-! ## 6. Class hierarchies: an instance uses its own class's `ALIASES` as they are when it is created -/
+
+/-- **MRO look-up = nearest declaration.**  (`TableWF`: a base class exists before its subclass.)  An own
+    `ALIASES` wins; a class without one sees exactly what its parent sees; directly below the mixin that is
+    `AliasMixin.ALIASES`.  Same for `PREFERRED_NAMES`, independently. -/
+theorem class_aliases_nearest_declaration {cs : Classes α} (hwf : TableWF cs.tbl) {c : Nat} {d : ClassDecl α}
+    (hd : cs.tbl[c]? = some d) :
+    (∀ m, d.aliases = some m → classAliases cs c = m) ∧
+    (∀ p, d.aliases = none → d.parent = some p → classAliases cs c = classAliases cs p) ∧
+    (d.aliases = none → d.parent = none → classAliases cs c = cs.mixinAliases) ∧
+    (∀ l, d.pref = some l → classPref cs c = l) ∧
+    (∀ p, d.pref = none → d.parent = some p → classPref cs c = classPref cs p) ∧
+    (d.pref = none → d.parent = none → classPref cs c = cs.mixinPref) := by
+  refine ⟨?_, ?_, ?_, ?_, ?_, ?_⟩
+  · intro m hm; simp [classAliases, lookupAttr_succ, hd, hm]
+  · intro p hn hp
+    have hpc := hwf c d p hd hp
+    unfold classAliases
+    rw [lookupAttr_succ]
+    simp only [hd, hn, hp]
+    rw [lookupAttr_fuel _ hwf c p hpc]
+  · intro hn hp; simp [classAliases, lookupAttr_succ, hd, hn, hp]
+  · intro m hm; simp [classPref, lookupAttr_succ, hd, hm]
+  · intro p hn hp
+    have hpc := hwf c d p hd hp
+    unfold classPref
+    rw [lookupAttr_succ]
+    simp only [hd, hn, hp]
+    rw [lookupAttr_fuel _ hwf c p hpc]
+  · intro hn hp; simp [classPref, lookupAttr_succ, hd, hn, hp]
+
+/-- **An instance uses its own class's aliases, as of its creation — for every history before and after.**
+    Whatever happened before (`es`: class statements, other instances of parents / children / siblings in any
+    order, re-assignments, in-place changes) and whatever happens afterwards (`fs`), the outcome of `Cls(...)`
+    is the constructor run on `Cls.ALIASES` / `Cls.PREFERRED_NAMES` as the look-up finds them at that moment, and
+    it stays that way; the constructor leaves the class-level state alone. -/
+theorem instance_uses_own_class_aliases (w : World α) (es fs : List (Event α)) (c : Nat) :
+    (runEvents w (es ++ .new c :: fs)).insts[(runEvents w es).insts.length]? =
+      some (construct c (classAliases (runEvents w es).cls c) (classPref (runEvents w es).cls c)) ∧
+    (runEvents w (es ++ [.new c])).cls = (runEvents w es).cls := by
+  constructor
+  · rw [runEvents_append]
+    show (runEvents (step (runEvents w es) (.new c)) fs).insts[_]? = _
+    obtain ⟨l, hl⟩ := runEvents_insts_prefix (step (runEvents w es) (.new c)) fs
+    rw [hl]
+    show ((runEvents w es).insts ++ [_] ++ l)[_]? = _
+    simp
+  · rw [runEvents_append]
+    rfl
+
+/-- Existing instances keep their own map: a history only ever appends to the list of outcomes. -/
+theorem existing_instances_keep_their_map (w : World α) (es : List (Event α)) (i : Nat) (x : Inst α)
+    (h : w.insts[i]? = some x) : (runEvents w es).insts[i]? = some x := by
+  obtain ⟨l, hl⟩ := runEvents_insts_prefix w es
+  rw [hl]
+  have hi : i < w.insts.length := by
+    apply Classical.byContradiction
+    intro hn
+    rw [List.getElem?_eq_none (by omega)] at h
+    cases h
+  rw [List.getElem?_append_left hi]
+  exact h
+
+/-- **Instantiation order is irrelevant**: the class-level state after a history is that after the history
+    with every constructor call removed — parent first, child first or interleaved, the next instance of a class
+    gets the same map. -/
+theorem instantiation_order_irrelevant (w : World α) (es : List (Event α)) (c : Nat) :
+    (runEvents w es).cls = (runEvents w (es.filter fun e => !e.isNew)).cls ∧
+    construct c (classAliases (runEvents w es).cls c) (classPref (runEvents w es).cls c) =
+      construct c (classAliases (runEvents w (es.filter fun e => !e.isNew)).cls c)
+        (classPref (runEvents w (es.filter fun e => !e.isNew)).cls c) := by
+  have h : (runEvents w es).cls = (runEvents w (es.filter fun e => !e.isNew)).cls := by
+    rw [runEvents_cls, runEvents_cls, foldl_stepClasses_filter]
+  exact ⟨h, by rw [h]⟩
+
+/-- `Cls.ALIASES = m` takes effect for `Cls` itself … -/
+theorem reassigned_aliases_used (cs : Classes α) (c : Nat) (m : AMap α) (hc : c < cs.tbl.length) :
+    classAliases (stepClasses cs (.setAliases c m)) c = m := by
+  have : ∃ d, cs.tbl[c]? = some d := ⟨cs.tbl[c], by simp [hc]⟩
+  obtain ⟨d, hd⟩ := this
+  simp [classAliases, stepClasses, lookupAttr_succ, getElem?_setAt, hd]
+
+/-- … and leaves every other class that has its own declaration alone (siblings, parents, re-declaring
+    children). -/
+theorem reassignment_leaves_other_declarations (cs : Classes α) (c c' : Nat) (m m' : AMap α) (hne : c' ≠ c)
+    {d : ClassDecl α} (hd : cs.tbl[c']? = some d) (hm : d.aliases = some m') :
+    classAliases (stepClasses cs (.setAliases c m)) c' = m' := by
+  simp [classAliases, stepClasses, lookupAttr_succ, getElem?_setAt, hne, hd, hm]
+
 end Fsic.C18
 
 /-! ## Concrete instances that meet the hypotheses used above -/
@@ -494,5 +657,49 @@ example : (run (aliased exE [("GDP", "Y"), ("income", "Y")]) exS [.setAttr "memo
     = ["note", "memo"] := by decide
 example : WF [("GDP", "Y"), ("income", "Y")] ∧ prefCheck [("GDP", "Y"), ("income", "Y")] ["income"] = true := by
   unfold WF keys; decide
+
+
+-- export with options: `_H` is internal, `wealth` its alias; status / iterations on and off
+def exVars : List (String × Nat) := [("Y", 1), ("_H", 2), ("G", 3)]
+def exInternal (s : String) : Bool := s.toList.head? = some '_'
+example : exportOpts strLe [("GDP", "Y"), ("wealth", "_H")] [] exInternal {} exVars ("status", 8) ("iterations", 9)
+    = some [("GDP", 1), ("G", 3), ("status", 8), ("iterations", 9)] := by decide
+example : exportOpts strLe [("GDP", "Y"), ("wealth", "_H")] [] exInternal ⟨false, true, true⟩ exVars ("status", 8)
+    ("iterations", 9) = some [("GDP", 1), ("wealth", 2), ("G", 3), ("iterations", 9)] := by decide
+example : exportOpts strLe [("GDP", "Y"), ("wealth", "_H")] ["Y"] exInternal ⟨true, false, true⟩ exVars ("status", 8)
+    ("iterations", 9) = some [("Y", 1), ("wealth", 2), ("G", 3), ("status", 8)] := by decide
+example : exportOpts strLe [("GDP", "Y"), ("wealth", "_H")] [] exInternal ⟨false, false, false⟩ exVars ("status", 8)
+    ("iterations", 9) = some [("GDP", 1), ("G", 3)] := by decide
+
+-- classes: P(AliasMixin, Base) {GDP: Y}; C(P) re-declares {income: Y}; G(C) inherits; S(P) {out: Y, o2: out}
+def exClasses : List (Event String) :=
+  [.defClass none (some [("GDP", "Y")]) none, .defClass (some 0) (some [("income", "Y")]) (some ["income"]),
+   .defClass (some 1) none none, .defClass (some 0) (some [("out", "Y"), ("o2", "out")]) none]
+example : TableWF (runEvents World.init exClasses).cls.tbl := by
+  intro c d p hc hp
+  have : (runEvents World.init exClasses).cls.tbl =
+      [⟨none, some [("GDP", "Y")], none⟩, ⟨some 0, some [("income", "Y")], some ["income"]⟩, ⟨some 1, none, none⟩,
+       ⟨some 0, some [("out", "Y"), ("o2", "out")], none⟩] := by decide
+  rw [this] at hc
+  match c with
+  | 0 => simp at hc; subst hc; simp at hp
+  | 1 => simp at hc; subst hc; simp at hp; omega
+  | 2 => simp at hc; subst hc; simp at hp; omega
+  | 3 => simp at hc; subst hc; simp at hp; omega
+  | n + 4 => simp at hc
+-- parent first, then child, grandchild, sibling: each its own (nearest) declaration
+example : (runEvents World.init (exClasses ++ [.new 0, .new 1, .new 2, .new 3])).insts =
+    [.ok 0 [("GDP", "Y")] [], .ok 1 [("income", "Y")] ["income"], .ok 2 [("income", "Y")] ["income"],
+     .ok 3 [("out", "Y"), ("o2", "Y")] []] := by decide
+-- child first, parent in between: the same maps
+example : (runEvents World.init (exClasses ++ [.new 2, .new 0, .new 1])).insts =
+    [.ok 2 [("income", "Y")] ["income"], .ok 0 [("GDP", "Y")] [], .ok 1 [("income", "Y")] ["income"]] := by decide
+-- re-assignment / in-place change after the first instance: old instances keep their map, new ones see the change;
+-- the grandchild follows its nearest declaration (C), a change through G lands in C's dict
+example : (runEvents World.init (exClasses ++ [.new 0, .setAliases 0 [("output", "Y")], .new 0, .new 1,
+      .putAlias 2 "k" "income", .new 1, .new 2, .delAliases 1, .new 2])).insts =
+    [.ok 0 [("GDP", "Y")] [], .ok 0 [("output", "Y")] [], .ok 1 [("income", "Y")] ["income"],
+     .ok 1 [("income", "Y"), ("k", "Y")] ["income"], .ok 2 [("income", "Y"), ("k", "Y")] ["income"],
+     .ok 2 [("output", "Y")] ["income"]] := by decide
 
 end Fsic.C18
